@@ -166,6 +166,19 @@ func specVariant(rng *rand.Rand, k int) (*common.Spec, string) {
 	return &sp, name
 }
 
+// staleCtxTag marks the ProcessSlots runs on which the known finding about MAX_SEED_LOOKAHEAD=0 can show in the registry
+// and balances: with a lookahead of 0 this epoch's activations and exits take effect in the very next epoch, whose
+// shuffling, active indices and total stake the incrementally rotated EpochsContext computed one epoch earlier; from
+// the SECOND epoch transition of a run on, rewards and the slashing penalties are computed from a stale context.
+func staleCtxTag(sp *common.Spec, slot, target uint64, st *hreg.Stats) string {
+	spe := uint64(sp.SLOTS_PER_EPOCH)
+	if sp.MAX_SEED_LOOKAHEAD == 0 && target/spe >= slot/spe+2 {
+		st.Add("slots-lookahead0-two-or-more-transitions", "yes")
+		return " stalectx=1"
+	}
+	return ""
+}
+
 // batchPeriod is floor(SLOTS_PER_HISTORICAL_ROOT / SLOTS_PER_EPOCH), the historical accumulators' period in epochs.
 func batchPeriod(sp *common.Spec) uint64 {
 	return uint64(sp.SLOTS_PER_HISTORICAL_ROOT) / uint64(sp.SLOTS_PER_EPOCH)
@@ -205,6 +218,10 @@ type profile struct {
 	lowBalance  bool
 	partDensity int // percent of active validators with target participation
 	name        string
+	// orderSens: the state is made sensitive to the ORDER of adjacent epoch stages (see orderSensitive)
+	orderSens bool
+	// finalizeNow: in a leak, with the justification of this very transition finalizing (the leak ends before rewards)
+	finalizeNow bool
 }
 
 func randProfile(rng *rand.Rand) profile {
@@ -406,6 +423,10 @@ func genState(rng *rand.Rand, sp *common.Spec, forkIdx int, slot uint64, n int, 
 		s.Balances = append(s.Balances, bal)
 	}
 
+	if pr.orderSens {
+		orderSensitive(rng, sp, s, forkIdx, cur)
+	}
+
 	// ---- finality
 	for i := range s.JustificationBits {
 		s.JustificationBits[i] = rng.Intn(2) == 0
@@ -439,6 +460,14 @@ func genState(rng *rand.Rand, sp *common.Spec, forkIdx int, slot uint64, n int, 
 		if cj < pj {
 			cj = pj
 		}
+	}
+	if pr.finalizeNow && cur >= 3 {
+		// epochs cur-2 and cur-1 justified, finality far behind: when this transition justifies the current epoch too,
+		// rule "bits[0:3], previous justified + 2 == current" finalizes cur-2 and the inactivity leak ends — BEFORE the
+		// inactivity updates and rewards of the same transition read it
+		cj, pj = cur-1, cur-2
+		fin = back(uint64(sp.MIN_EPOCHS_TO_INACTIVITY_PENALTY) + 3 + uint64(rng.Intn(5)))
+		s.JustificationBits[0], s.JustificationBits[1] = true, true
 	}
 	rootAt := func(epoch uint64) [32]byte { // the block root the state holds for that epoch's start slot, if still in range
 		sl := epoch * spe
@@ -561,6 +590,90 @@ func sat(base, d uint64, adj int64, _ bool) uint64 {
 		return 0
 	}
 	return uint64(v)
+}
+
+// orderSensitive rewrites parts of a generated registry / slashings vector so that the result of the epoch transition
+// depends on the order of adjacent stages (a whole-epoch op then tells a stage-order mutant from the real code):
+//   - (slashings, slashings_reset): slashings[(cur+1) % VECTOR] — the entry the reset is about to clear — is non-zero,
+//     the vector's sum times the fork's multiplier stays below the total active balance (the penalty is not saturated),
+//     and slashed validators have their correlation penalty due now (withdrawable == cur + VECTOR/2);
+//   - (rewards, slashings): one of them has a balance below its penalty (saturating decrease, then / before the rewards);
+//   - (slashings | rewards, effective_balance_updates): the penalty moves the balance far across the hysteresis band;
+//   - (registry_updates, effective_balance_updates): an active validator at MAX effective balance whose balance has
+//     dropped below the ejection balance (ejectable only from the NEXT epoch), and a not-yet-eligible validator whose
+//     balance has reached MAX while its effective balance has not (eligible only from the next epoch).
+func orderSensitive(rng *rand.Rand, sp *common.Spec, s *flat.State, forkIdx int, cur uint64) {
+	inc := uint64(sp.EFFECTIVE_BALANCE_INCREMENT)
+	maxEff := uint64(sp.MAX_EFFECTIVE_BALANCE)
+	vec := uint64(sp.EPOCHS_PER_SLASHINGS_VECTOR)
+	n := len(s.Validators)
+	if n < 12 || vec < 2 {
+		return
+	}
+	pick := func() int { return 6 + rng.Intn(n-6) }
+	// due slashed validators
+	due := map[int]bool{}
+	for k := 0; k < 2+rng.Intn(2); k++ {
+		i := pick()
+		due[i] = true
+		v := &s.Validators[i]
+		v.Slashed = true
+		v.EffectiveBalance = maxEff
+		v.ActivationEligibilityEpoch, v.ActivationEpoch = 0, 0
+		v.WithdrawableEpoch = cur + vec/2
+		v.ExitEpoch = cur + 1
+		if cur > 0 && rng.Intn(2) == 0 {
+			v.ExitEpoch = uint64(rng.Intn(int(cur) + 1))
+		}
+		if v.ExitEpoch > v.WithdrawableEpoch {
+			v.ExitEpoch = v.WithdrawableEpoch
+		}
+		s.Balances[i] = maxEff
+		if k == 1 {
+			s.Balances[i] = inc / 2 // below any non-zero penalty
+		}
+	}
+	// registry_updates reads the effective balances of the START of the transition
+	for k := 0; k < 2; k++ {
+		i := pick()
+		if due[i] {
+			continue
+		}
+		v := &s.Validators[i]
+		v.Slashed = false
+		if k == 0 {
+			v.ActivationEligibilityEpoch, v.ActivationEpoch, v.ExitEpoch, v.WithdrawableEpoch = 0, 0, far, far
+			v.EffectiveBalance = maxEff
+			s.Balances[i] = uint64(sp.EJECTION_BALANCE) / 2
+		} else {
+			v.ActivationEligibilityEpoch, v.ActivationEpoch, v.ExitEpoch, v.WithdrawableEpoch = far, far, far, far
+			v.EffectiveBalance = maxEff - inc
+			s.Balances[i] = maxEff + 2*inc
+		}
+	}
+	// total active balance at the current epoch, and a slashings vector whose adjusted sum is about half of it
+	total := uint64(0)
+	for i := range s.Validators {
+		if v := &s.Validators[i]; v.ActivationEpoch <= cur && cur < v.ExitEpoch {
+			total += v.EffectiveBalance
+		}
+	}
+	mult := uint64([]view.Uint64View{sp.PROPORTIONAL_SLASHING_MULTIPLIER, sp.PROPORTIONAL_SLASHING_MULTIPLIER_ALTAIR,
+		sp.PROPORTIONAL_SLASHING_MULTIPLIER_BELLATRIX, sp.PROPORTIONAL_SLASHING_MULTIPLIER_BELLATRIX, sp.PROPORTIONAL_SLASHING_MULTIPLIER_BELLATRIX}[forkIdx])
+	if mult == 0 {
+		mult = 1
+	}
+	part := total / (4 * mult) / inc * inc
+	if part < inc {
+		part = inc
+	}
+	for i := range s.Slashings {
+		s.Slashings[i] = 0
+	}
+	next := (cur + 1) % vec
+	other := (next + 1 + uint64(rng.Intn(int(vec-1)))) % vec
+	s.Slashings[next] = part
+	s.Slashings[other] += part
 }
 
 // addPendingAttestations fills previous/current epoch attestations with well-shaped pending attestations
@@ -766,6 +879,30 @@ func shapeStats(st *hreg.Stats, sp *common.Spec, s *flat.State) {
 		// the start slot of the next epoch wraps the roots vector, but no batch is due (floor period)
 		st.Add("history", "roots-vector-wraps-but-no-batch-due")
 	}
+	// the slashings vector: which entries are non-zero relative to the one the reset is about to clear, and wrap-around
+	vec := uint64(len(s.Slashings))
+	if vec > 0 {
+		for i, x := range s.Slashings {
+			if x != 0 {
+				rel := (uint64(i) + vec - (cur+1)%vec) % vec
+				switch {
+				case rel == 0:
+					st.Add("slashings-nonzero-entry", s.Fork+":about-to-be-reset")
+					if slashedHalf > 0 {
+						st.Add("slashings-nonzero-entry", s.Fork+":about-to-be-reset-with-penalty-due")
+					}
+				case rel == vec-1:
+					st.Add("slashings-nonzero-entry", s.Fork+":current-epoch")
+				default:
+					st.Add("slashings-nonzero-entry", s.Fork+":older")
+				}
+				st.Add("slashings-nonzero-index", strconv.Itoa(i%16))
+			}
+		}
+		if cur >= vec {
+			st.Add("slashings-vector-wrapped", s.Fork)
+		}
+	}
 	st.Add("epoch", bucket(int(cur), []int{0, 1, 2, 3, 8, 32}))
 	st.Add("validators", strconv.Itoa(len(s.Validators)))
 }
@@ -815,9 +952,19 @@ func gen(o hreg.Opts, w *bufio.Writer) error {
 			setForks(sp, forkIdx, epoch, 0, rng)
 			n := sizes[rng.Intn(len(sizes))]
 			pr := randProfile(rng)
+			pr.orderSens = i%3 == 1
+			if i%6 == 4 {
+				pr.finalizeNow, pr.leak, pr.partDensity = true, true, 100
+			}
 			s := genState(rng, sp, forkIdx, epoch*spe+spe-1, n, pr, st)
 			st.Add("spec", spName)
 			st.Add("fork", s.Fork)
+			if pr.orderSens {
+				st.Add("stage-order-sensitive-state", s.Fork)
+			}
+			if pr.finalizeNow && epoch >= 3 {
+				st.Add("leak-with-finalization-due-in-this-transition", s.Fork)
+			}
 			shapeStats(st, sp, s)
 			if i == 0 {
 				emit("echo", sp, s, "aggs=-")
@@ -864,6 +1011,11 @@ func gen(o hreg.Opts, w *bufio.Writer) error {
 		if rng.Intn(2) == 0 {
 			slot = epoch*spe + spe - 1
 		}
+		pr.orderSens = i%3 == 1 // the run crosses the end of this epoch (span >= 1 slot from its last or an earlier slot)
+		if pr.orderSens {
+			slot = epoch*spe + spe - 1 - uint64(rng.Intn(2))
+			st.Add("stage-order-sensitive-state-slots", flat.Forks[forkIdx])
+		}
 		s := genState(rng, sp, forkIdx, slot, n, pr, st)
 		span := uint64(1 + rng.Intn(int(3*spe)))
 		if rng.Intn(4) == 0 {
@@ -871,6 +1023,9 @@ func gen(o hreg.Opts, w *bufio.Writer) error {
 		}
 		if crossBatch && span < spe {
 			span = spe + uint64(rng.Intn(int(2*spe)))
+		}
+		if pr.orderSens && span < 2 {
+			span = 2
 		}
 		target := slot + span
 		e, steps, crossed := extrasForSlots(sp, s, target)
@@ -884,7 +1039,7 @@ func gen(o hreg.Opts, w *bufio.Writer) error {
 			st.Add("slots-go-rejected-at-gen", "yes")
 		}
 		shapeStats(st, sp, s)
-		emit("slots", sp, s, "target="+strconv.FormatUint(target, 10)+" "+e.tokens())
+		emit("slots", sp, s, "target="+strconv.FormatUint(target, 10)+staleCtxTag(sp, slot, target, st)+" "+e.tokens())
 		st.Add("op", "slots-from-"+s.Fork)
 	}
 	// spans that cross three or four fork boundaries (consecutive or coinciding fork epochs)
@@ -914,7 +1069,7 @@ func gen(o hreg.Opts, w *bufio.Writer) error {
 		if pr.leak {
 			st.Add("history", "leak-while-crossing-"+strconv.Itoa(crossed)+"-forks")
 		}
-		emit("slots", sp, s, "target="+strconv.FormatUint(target, 10)+" "+e.tokens())
+		emit("slots", sp, s, "target="+strconv.FormatUint(target, 10)+staleCtxTag(sp, slot, target, st)+" "+e.tokens())
 		st.Add("op", "slots-multi-fork-from-"+s.Fork)
 	}
 	// isolated upgrades at the fork slot
